@@ -30,6 +30,33 @@ var nfExceptions = map[string]string{
 	"jlib.Single": "reflect.ValueOf(x) under `reflect.TypeOf(x).Kind() == reflect.Slice`: ValueOf of an interface holding a slice is slice-kinded",
 }
 
+// nfExceptionFor: the entry for f's own (outermost) function, or — for an unexported function
+// that is only ever called directly, and only from functions that have an entry — the entry of
+// its callers: the excepted code was moved into a helper of the excepted function.
+func nfExceptionFor(c *Ctx, f *ssa.Function, depth int) (string, string, bool) {
+	k := exceptionKey(f)
+	if why, ok := nfExceptions[k]; ok {
+		return k, why, true
+	}
+	root := exceptionRoot(f)
+	if depth >= 2 || c == nil || root.Object() == nil || root.Object().Exported() {
+		return "", "", false
+	}
+	sites, ok := c.staticCallers(root)
+	if !ok || len(sites) == 0 {
+		return "", "", false
+	}
+	key, why := "", ""
+	for _, s := range sites {
+		k2, w2, ok2 := nfExceptionFor(c, s.Parent(), depth+1)
+		if !ok2 || (key != "" && key != k2) {
+			return "", "", false
+		}
+		key, why = k2, w2
+	}
+	return key, why + " (the code now lives in " + shortFn(root) + ", which only " + key + " calls)", true
+}
+
 type nfEngine struct {
 	c       *Ctx
 	g       *MCG
@@ -140,7 +167,7 @@ func (e *nfEngine) solve(queries []ssa.Value) {
 					if !ok {
 						continue
 					}
-					if _, excepted := nfExceptions[exceptionKey(f)]; excepted {
+					if _, _, excepted := nfExceptionFor(e.c, f, 0); excepted {
 						// arguments built inside an excepted function are covered by its exception
 						continue
 					}
@@ -462,9 +489,9 @@ func runNF(c *Ctx, g *MCG, r *Result, rule string, fns []*ssa.Function, reach *R
 				o.Verdict = Discharged
 				o.Reason = e.reason[recv]
 				o.Nontrivial = !e.trivial[recv]
-			} else if why, ok := nfExceptions[exceptionKey(f)]; ok {
+			} else if ek, why, ok := nfExceptionFor(c, f, 0); ok {
 				o.Verdict = Exception
-				o.Reason = "exception for " + exceptionKey(f) + ": " + why
+				o.Reason = "exception for " + ek + ": " + why
 				o.Nontrivial = true
 			} else {
 				o.Verdict = Finding
